@@ -808,6 +808,40 @@ class MiniInterp:
         raise AnalysisError('%s:%s not understood by the canonicalisation interpreter: %s'
                             % (self.where, getattr(n, 'lineno', '?'), what))
 
+    def module_name(self, n):
+        """a free name: a module-level constant of the module(s) the interpreted class lives in (plain / annotated assignment,
+        also when imported from another indexed module); anything else fails closed"""
+        cache = self.__dict__.setdefault('_modnames', {})
+        if n.id in cache:
+            if cache[n.id] is MiniInterp._BUSY:
+                self.fail(n, 'cyclic module-level definition of ' + n.id)
+            return cache[n.id]
+        mods = []
+        for k in [self.cls] + list(self.idx.mro(self.cls)):
+            m = getattr(k, 'mod', None)
+            if m is not None and m not in mods:
+                mods.append(m)
+        for m in mods:
+            node = None
+            r = self.idx.resolve(m, n.id)
+            if r and r[0] == 'const':
+                node = r[2]
+            else:
+                for st in m.tree.body:       # annotated module-level assignment (not in the index's table)
+                    if isinstance(st, ast.AnnAssign) and isinstance(st.target, ast.Name) and st.target.id == n.id and st.value is not None:
+                        node = st.value
+            if node is not None:
+                cache[n.id] = MiniInterp._BUSY
+                try:
+                    v = self.ev(node, {}, 0)
+                finally:
+                    cache.pop(n.id, None)
+                cache[n.id] = v
+                return v
+        self.fail(n, 'name ' + n.id)
+
+    _BUSY = object()
+
     def call(self, fn, args, depth=0):
         if depth > 6:
             self.fail(fn, 'helper recursion too deep')
@@ -940,7 +974,7 @@ class MiniInterp:
         if isinstance(n, ast.Name):
             if n.id in env:
                 return env[n.id]
-            self.fail(n, 'name ' + n.id)
+            return self.module_name(n)
         if isinstance(n, (ast.List, ast.Tuple)):
             return [self.ev(e, env, depth) for e in n.elts]
         if isinstance(n, ast.JoinedStr):
